@@ -711,6 +711,99 @@ def rule_s_reserve(ctx):
             R.inst(fn=b.path, site=c.where(), callee=lc.path, verdict="ok" if not bad else "VIOLATION")
             if bad:
                 R.viol("%s:grow-extra" % b.path, c.where(), "%s: %s" % (b.path, bad))
+    # every way through reserve / try_reserve reserves in place or grows: a path that does neither returns having promised room it did not make
+    from rules_typestate import _must_pass
+    for b in ts.bodies:
+        if b.name not in ("reserve", "try_reserve"):
+            continue
+        done = set()
+        for c in ctx.calls(b):
+            if b.is_cleanup(c.loc.bb):
+                continue
+            lc = c.local_callee()
+            if c.tname in (HBT + "reserve", HBT + "try_reserve") and ctx.role(b, c.arg_path(0)) == MAIN:
+                done.add(c.loc.bb)
+            elif lc is not None and (lc.path in reps or any(p in reps for p in ctx.reachable_bodies(lc.path))) and lc.path not in movers(ctx) \
+                    and is_self_s(ctx, b, c.arg_path(0)):
+                done.add(c.loc.bb)
+        for rb_, rloc_, _ in replacer_sites(ctx):
+            if rb_.path == b.path:
+                done.add(rloc_.bb)
+        for c in ctx.calls(b):
+            # (with the growth helper merged into this body:) an allocation was attempted, or the failure of one / of the size arithmetic is being
+            # handed to the caller — that path promises nothing
+            if not b.is_cleanup(c.loc.bb) and (c.tname in (HBT + "with_capacity", HBT + "try_with_capacity") or (c.name or "").endswith("from_residual")):
+                done.add(c.loc.bb)
+        for loc_, st_ in b.all_assigns():
+            if not b.is_cleanup(loc_.bb) and st_["rv"]["k"] == "aggregate" and st_["rv"].get("adt") == "core::result::Result" and st_["rv"].get("variant") == "Err":
+                done.add(loc_.bb)
+        w = _must_pass(b, [0], done, set())
+        R.inst(fn=b.path, check="every path reserves in place or grows", verdict="ok" if w is None else "VIOLATION")
+        if w is not None:
+            R.viol("%s:no-room-made" % b.path, b.where(Loc(w[-1], 0)), "%s can return (path %s) without reserving in place and without growing: the caller was promised room "
+                   "for `additional` more elements" % (b.path, " -> ".join("bb%d" % x for x in w)))
+    # the fallibility switch of the sizing helper: `true` exactly where the caller hands the error on
+    T = ctx.facts.types
+    for F in ctx.facts.bodies.values():
+        if F.kind == "Closure":
+            continue
+        kinds = {c.tname for c in ctx.calls(F) if not F.is_cleanup(c.loc.bb)}
+        if not ({HBT + "with_capacity", HBT + "try_with_capacity"} <= kinds):
+            continue
+        bparams = [l for l in range(1, F.arg_count + 1) if T[F.locals[l]["ty"]].get("k") == "bool"]
+        sel = []
+        for l in bparams:
+            for bb in F.reachable():
+                t = F.term(bb)
+                if t["k"] == "switch" and t["discr"]["k"] in ("copy", "move"):
+                    pth = F.op_path(t["discr"])
+                    if pth is not None and pth.root == l and not pth.fields():
+                        # which allocation sits on which side
+                        tgt_true = [t["otherwise"]] if [v for v, _ in t["targets"]] == [0] else [tb for v, tb in t["targets"] if v == 1]
+                        fall_true = any(c.tname == HBT + "try_with_capacity" and c.loc.bb in F.reach_from(tgt_true) for c in ctx.calls(F))
+                        sel.append((l, fall_true))
+        if len(sel) != 1:
+            continue
+        l, true_is_fallible = sel[0]
+        for b2 in ctx.facts.bodies.values():
+            for c2 in ctx.calls(b2):
+                lc2 = c2.local_callee()
+                if lc2 is None or lc2.path != F.path or b2.is_cleanup(c2.loc.bb) or l - 1 >= len(c2.args):
+                    continue
+                v = b2.op_const(c2.args[l - 1])
+                if v is None:
+                    continue
+                own = ctx.facts.closure_parent(b2)
+                hands_on = T[own.locals[0]["ty"]].get("adt") == "core::result::Result"
+                asked_fallible = bool(v) == true_is_fallible
+                ok_ = asked_fallible == hands_on
+                R.inst(fn=b2.path, site=c2.where(), callee=F.path, fallible=asked_fallible, caller_returns_result=hands_on, verdict="ok" if ok_ else "VIOLATION")
+                if not ok_:
+                    R.viol("%s:fallibility" % b2.path, c2.where(), "%s asks %s for the %s allocation but %s: %s" % (
+                        b2.path, F.path, "fallible" if asked_fallible else "infallible (panicking / aborting)",
+                        "returns a Result its caller expects to carry the failure" if hands_on else "has no way to report a failure",
+                        "an allocation failure or capacity overflow panics instead of being returned" if hands_on else "an Err comes back that nothing can hand on"))
+    # the same, seen from inside a fallible operation (also after the helper has been merged into it): an allocation that panics or aborts on failure
+    # is only reachable under a test of a fallibility parameter of that very function
+    for b2 in ctx.facts.bodies.values():
+        if b2.kind == "Closure" or T[b2.locals[0]["ty"]].get("adt") != "core::result::Result" or "TryReserveError" not in T[b2.locals[0]["ty"]]["s"]:
+            continue
+        for c2 in ctx.calls(b2):
+            if c2.tname != HBT + "with_capacity" or b2.is_cleanup(c2.loc.bb):
+                continue
+            guarded = False
+            for bb in b2.reachable():
+                t = b2.term(bb)
+                if t["k"] != "switch" or t["discr"]["k"] not in ("copy", "move"):
+                    continue
+                pth = b2.op_path(t["discr"])
+                if pth is not None and 1 <= pth.root <= b2.arg_count and not pth.fields() and T[b2.locals[pth.root]["ty"]].get("k") == "bool" \
+                        and (bb == c2.loc.bb or bb in b2.dom().get(c2.loc.bb, set())):
+                    guarded = True
+            R.inst(fn=b2.path, site=c2.where(), allocation="infallible", verdict="ok: only under the function's own fallibility parameter" if guarded else "VIOLATION")
+            if not guarded:
+                R.viol("%s:infallible-allocation" % b2.path, c2.where(), "%s returns a Result for allocation failures but allocates with %s, which panics or aborts instead "
+                       "of returning the error" % (b2.path, c2.tname))
     fns_inplace = {i["fn"] for i in R.instances if "amount" in i or i.get("verdict") == "VIOLATION"}
     if n < 2 or len(fns_inplace) < 2:
         R.anchor("in-place-sites", "expected an in-place reserve site in each of reserve and try_reserve, found %d in %d functions" % (n, len(fns_inplace)))
